@@ -13,7 +13,7 @@ open Gs Gs.Gen
 /-- iteration order of a Go map: `ord` selects one of the permutations the driver samples (reversal, rotations). -/
 def it {α} (ord : Nat) (l : List α) : List α :=
   let l' := if ord % 2 = 1 then l.reverse else l
-  l'.rotateLeft (ord / 2)
+  l'.drop (ord / 2) ++ l'.take (ord / 2)
 
 /-! ### compatibility.go, spec_difference.go -/
 
@@ -55,11 +55,19 @@ def dedup : List String → List String
   | [] => []
   | x :: xs => x :: (dedup xs).filter (· ≠ x)
 
+/-- sort.Strings (insertion sort: structural, so that closed terms evaluate in the kernel) -/
+def insertStr (x : String) : List String → List String
+  | [] => [x]
+  | y :: ys => if x ≤ y then x :: y :: ys else y :: insertStr x ys
+def sortStrs : List String → List String
+  | [] => []
+  | x :: xs => insertStr x (sortStrs xs)
+
 /-- fromStringArray(from).DiffsTo(to) → (added, deleted); `from = none` is the nil slice. -/
 def diffsTo (frm : Option (List String)) (to : List String) : List String × List String :=
   match frm with
   | none => (to, [])
-  | some f => (dedup (to.filter (fun x => !f.contains x)), dedup (f.filter (fun x => !to.contains x)))
+  | some f => (sortStrs (dedup (to.filter (fun x => !f.contains x))), sortStrs (dedup (f.filter (fun x => !to.contains x))))
 
 /-! ### schema.go : type names -/
 
@@ -86,22 +94,23 @@ def typeOfProps : Nat → Schema → Outcome (String × Bool)
     | t :: _ =>
       let tn := primitiveTypeString t s.format
       if tn = "array" then
-        if !s.hasItems then .panic "nil Items" else
+        -- arrayItemsType: no single items schema (missing items, tuple) ⇒ empty element type
+        if !s.hasItems then .ok ("", true) else
         match s.itemOne with
-        | none => .panic "nil Items.Schema"
+        | none => .ok ("", true)
         | some i => (typeOfProps n i).bind (fun r => .ok (r.1, true))
       else .ok (tn, false)
 
-/-- getTypeFromSchema (the `*spec.Schema` case: indexes `Type[0]` without a guard) -/
+/-- getTypeFromSchema (the `*spec.Schema` case; the format is not appended here) -/
 def typeOfSchema (n : Nat) (s : Schema) : Outcome (String × Bool) :=
   if s.ref ≠ "" then .ok (s.ref, false) else
   match s.type with
-  | [] => .panic "index out of range: Type[0]"
+  | [] => .ok ("", false)
   | t :: _ =>
     if t = "array" then
-      if !s.hasItems then .panic "nil Items" else
+      if !s.hasItems then .ok ("", true) else
       match s.itemOne with
-      | none => .panic "nil Items.Schema"
+      | none => .ok ("", true)
       | some i => (typeOfProps n i).bind (fun r => .ok (r.1, true))
     else .ok (t, false)
 
@@ -167,14 +176,11 @@ def compareEnums (l r : List JVal) : List TDiff :=
   (if ad.1.isEmpty then [] else [{ change := Code.AddedEnumValue, desc := joinComma ad.1 }]) ++
   (if ad.2.isEmpty then [] else [{ change := Code.DeletedEnumValue, desc := joinComma ad.2 }])
 
-/-- CheckStringTypeChanges — note the `MaxLength` comparison reads `MinLength` on both sides, as the code does
-    (after the `fix:` this line reads `maxLength`; the translator flag `Gen`-independent: tied by correspondence). -/
-def checkStringTypeChanges (maxLenFixed : Bool) (ds : List TDiff) (t1 t2 : Schema) : List TDiff :=
+/-- CheckStringTypeChanges (the pinned tree passed `MinLength` to the `MaxLength` comparison; repaired). -/
+def checkStringTypeChanges (ds : List TDiff) (t1 t2 : Schema) : List TDiff :=
   if t1.type.head? = some "string" && t2.type.head? = some "string" then
     let ds := ds ++ compareIntValues t1.v.minLength t2.v.minLength Code.NarrowedType Code.WidenedType
-    let ds := ds ++ (if maxLenFixed
-                     then compareIntValues t1.v.maxLength t2.v.maxLength Code.WidenedType Code.NarrowedType
-                     else compareIntValues t1.v.minLength t2.v.minLength Code.WidenedType Code.NarrowedType)
+    let ds := ds ++ compareIntValues t1.v.maxLength t2.v.maxLength Code.WidenedType Code.NarrowedType
     let ds := if t1.v.pattern ≠ t2.v.pattern then addTD ds { change := Code.ChangedType, desc := "Pattern Changed" } else ds
     if t1.v.enum.length > 0 then ds ++ compareEnums t1.v.enum t2.v.enum else ds
   else ds
@@ -225,7 +231,7 @@ def checkRefChangeSchema (n : Nat) (t1 t2 : Schema) : Outcome (List TDiff) :=
   else .ok []
 
 /-- SpecAnalyser.CompareProps -/
-def compareProps (mlf : Bool) (n : Nat) (t1 t2 : Schema) : Outcome (List TDiff) :=
+def compareProps (n : Nat) (t1 t2 : Schema) : Outcome (List TDiff) :=
   -- CheckToFromPrimitiveType
   if isPrimitiveType t1.type ≠ isPrimitiveType t2.type then
     (typeOfProps n t1).bind fun a => (typeOfProps n t2).bind fun b =>
@@ -246,7 +252,7 @@ def compareProps (mlf : Bool) (n : Nat) (t1 t2 : Schema) : Outcome (List TDiff) 
     if h1 ≠ h2 || t1.format ≠ t2.format then
       addTD [] (getTypeHierarchyChange (primitiveTypeString h1 t1.format) (primitiveTypeString h2 t2.format))
     else []
-  let ds := checkStringTypeChanges mlf ds t1 t2
+  let ds := checkStringTypeChanges ds t1 t2
   if !ds.isEmpty then .ok ds else
   .ok (checkNumericTypeChanges ds t1 t2)
 
@@ -331,87 +337,98 @@ structure Ctx where
   defs1 : Defs
   defs2 : Defs
   rev : Nat := 0
-  mlf : Bool := false       -- MaxLength comparison repaired (reads MaxLength)
-  deepEq : Bool := false    -- Default/Example compared with reflect.DeepEqual (repaired) instead of `!=`
+
+abbrev Cmp := Loc → Option Schema → Option Schema → St → Outcome St
+
+/-- compareSchema, step 2–3: the visited test on `schemaLocationKey(location)` and the resolution of both sides.
+    `none`: already compared (return); otherwise the two resolved schemas (`none` = nil pointer) and the state. -/
+def resolveBoth (cx : Ctx) (loc : Loc) (s1 s2 : Schema) (st : St) :
+    Outcome (Option (Option Schema × Option Schema × St)) :=
+  let r1 : Outcome (Option (Option Schema × St)) :=
+    if s1.ref ≠ "" then
+      (schemaLocationKey loc).bind fun key =>
+        if st.visited.contains key then .ok none
+        else .ok (some (schemaFromRef { st with visited := st.visited ++ [key] } cx.defs1 s1.ref))
+    else .ok (some (some s1, st))
+  r1.bind fun
+  | none => .ok none
+  | some (o1, st) =>
+    let r2 := if s2.ref ≠ "" then schemaFromRef st cx.defs2 s2.ref else (some s2, st)
+    .ok (some (o1, r2.1, r2.2))
+
+/-- compareSchema, step 6: arrays recurse on `Items.Schema` with the same location. -/
+def compareItems (cmp : Cmp) (n : Nat) (loc : Loc) (t1 t2 : Schema) (st : St) : Outcome St :=
+  if isArrayType t1.type then
+    if isArrayType t2.type then
+      -- tuples and arrays without items have no single items schema to compare
+      if t1.hasItems && t1.itemOne.isSome && t2.hasItems && t2.itemOne.isSome then cmp loc t1.itemOne t2.itemOne st
+      else .ok st
+    else
+      (typeStrOfSchema n t1).bind fun f => (typeStrOfSchema n t2).bind fun t =>
+        .ok (st.addDiffs loc [{ change := Code.ChangedType, fromT := f, toT := t }])
+  else .ok st
+
+/-- CompareProperties, first loop body: deleted / changed properties.  Nested comparisons are appended to
+    `sd.Diffs` at once, the property-level entries (`propDiffs`) only after both loops. -/
+def propStep (cmp : Cmp) (n : Nat) (loc : Loc) (props2 : List (String × PropDefn))
+    (acc : St × List (Loc × Code)) (kv : String × PropDefn) : Outcome (St × List (Loc × Code)) :=
+  (addChildDiffNode n loc kv.1 kv.2.schema).bind fun childLoc =>
+  match lookup props2 kv.1 with
+  | some p2 =>
+    let pd := (checkToFromRequired kv.2.required p2.required).map (fun d => (childLoc, d.change))
+    (cmp childLoc (some kv.2.schema) (some p2.schema) acc.1).bind fun st' => .ok (st', acc.2 ++ pd)
+  | none => .ok (acc.1, acc.2 ++ [(childLoc, Code.DeletedProperty)])
+
+/-- CompareProperties, second loop body: own properties of schema2 missing from the own properties of schema1. -/
+def addedStep (n : Nat) (loc : Loc) (t1 : Schema) (props2 : List (String × PropDefn))
+    (acc : List (Loc × Code)) (kv : String × Schema) : Outcome (List (Loc × Code)) :=
+  if (t1.hasProps && hasKey t1.props kv.1) then .ok acc else
+  (addChildDiffNode n loc kv.1 kv.2).bind fun childLoc =>
+    let req := match lookup props2 kv.1 with | some p => p.required | none => false
+    .ok (acc ++ [(childLoc, if req then Code.AddedRequiredProperty else Code.AddedProperty)])
+
+/-- CompareProperties (checks.go) together with the loop in compareSchema that adds its result. -/
+def compareProperties (cx : Ctx) (cmp : Cmp) (n : Nat) (loc : Loc) (t1 t2 : Schema) (st : St) : Outcome St :=
+  if !t1.hasProps && !t2.hasProps then .ok st else
+  (propertiesFor cx.defs1 n t1).bind fun pr1 =>
+  (propertiesFor cx.defs2 n t2).bind fun pr2 =>
+  let st := st.markRefs (pr1.2 ++ pr2.2)
+  (Outcome.foldlM (propStep cmp n loc pr2.1) (st, []) (it cx.rev pr1.1)).bind fun r =>
+  (Outcome.foldlM (addedStep n loc t1 pr2.1) r.2 (it cx.rev (if t2.hasProps then t2.props else []))).bind fun propDiffs =>
+  .ok (propDiffs.foldl (fun st d => st.addDiff d.1 d.2) r.1)
 
 /-- SpecAnalyser.compareSchema.  `none` = nil `*spec.Schema`. -/
-def compareSchema (cx : Ctx) : Nat → Loc → Option Schema → Option Schema → St → Outcome St
-  | 0, _, _, _, _ => .fuel
-  | n+1, loc, os1, os2, st =>
+def compareSchema (cx : Ctx) : Nat → Cmp
+  | 0 => fun _ _ _ _ => .fuel
+  | n+1 => fun loc os1 os2 st =>
     match os1, os2 with
     | none, _ => .panic "nil schema1 (isRefType)"
     | _, none => .panic "nil schema2 (isRefType)"
     | some s1, some s2 =>
     (checkRefChangeSchema n s1 s2).bind fun refDiffs =>
     if !refDiffs.isEmpty then .ok (refDiffs.foldl (fun st d => st.addTypeDiff loc d) st) else
-    -- visited test and resolution of schema1
-    let r1 : Outcome (Option (Option Schema × St)) :=
-      if s1.ref ≠ "" then
-        (schemaLocationKey loc).bind fun key =>
-          if st.visited.contains key then .ok none
-          else
-            let st := { st with visited := st.visited ++ [key] }
-            .ok (some (schemaFromRef st cx.defs1 s1.ref))
-      else .ok (some (some s1, st))
-    r1.bind fun
+    (resolveBoth cx loc s1 s2 st).bind fun
     | none => .ok st
-    | some (o1, st) =>
-    let (o2, st) := if s2.ref ≠ "" then schemaFromRef st cx.defs2 s2.ref else (some s2, st)
-    match o1, o2 with
-    | none, _ => .panic "nil schema1 after $ref resolution"
-    | _, none => .panic "nil schema2 after $ref resolution"
-    | some t1, some t2 =>
+    | some (none, _, _) => .panic "nil schema1 after $ref resolution"
+    | some (_, none, _) => .panic "nil schema2 after $ref resolution"
+    | some (some t1, some t2, st) =>
     let st := st.compareDescripton loc t1.desc t2.desc
-    (compareProps cx.mlf n t1 t2).bind fun typeDiffs =>
+    (compareProps n t1 t2).bind fun typeDiffs =>
     if !typeDiffs.isEmpty then .ok (st.addDiffs loc typeDiffs) else
-    let arr : Outcome St :=
-      if isArrayType t1.type then
-        if isArrayType t2.type then
-          if !t1.hasItems then .panic "nil schema1.Items" else
-          if !t2.hasItems then .panic "nil schema2.Items" else
-          compareSchema cx n loc t1.itemOne t2.itemOne st
-        else
-          (typeStrOfSchema n t1).bind fun f => (typeStrOfSchema n t2).bind fun t =>
-            .ok (st.addDiffs loc [{ change := Code.ChangedType, fromT := f, toT := t }])
-      else .ok st
-    arr.bind fun st =>
-    -- CompareProperties
-    if !t1.hasProps && !t2.hasProps then .ok st else
-    (propertiesFor cx.defs1 n t1).bind fun (props1, refs1) =>
-    (propertiesFor cx.defs2 n t2).bind fun (props2, refs2) =>
-    let st := st.markRefs (refs1 ++ refs2)
-    -- deleted / changed properties; nested comparisons are appended to sd.Diffs at once, the property-level
-    -- entries (`propDiffs`) only after both loops
-    (Outcome.foldlM (fun (acc : St × List (Loc × Code)) (kv : String × PropDefn) =>
-        (addChildDiffNode n loc kv.1 kv.2.schema).bind fun childLoc =>
-        match lookup props2 kv.1 with
-        | some p2 =>
-          let pd := (checkToFromRequired kv.2.required p2.required).map (fun d => (childLoc, d.change))
-          (compareSchema cx n childLoc (some kv.2.schema) (some p2.schema) acc.1).bind fun st' =>
-            .ok (st', acc.2 ++ pd)
-        | none => .ok (acc.1, acc.2 ++ [(childLoc, Code.DeletedProperty)]))
-      (st, []) (it cx.rev props1)).bind fun (st, propDiffs) =>
-    -- added properties: own properties of schema2 missing from the own properties of schema1
-    (Outcome.foldlM (fun (acc : List (Loc × Code)) (kv : String × Schema) =>
-        if (t1.hasProps && hasKey t1.props kv.1) then .ok acc else
-        (addChildDiffNode n loc kv.1 kv.2).bind fun childLoc =>
-          let req := match lookup props2 kv.1 with | some p => p.required | none => false
-          .ok (acc ++ [(childLoc, if req then Code.AddedRequiredProperty else Code.AddedProperty)]))
-      propDiffs (it cx.rev (if t2.hasProps then t2.props else []))).bind fun propDiffs =>
-    .ok (propDiffs.foldl (fun st d => st.addDiff d.1 d.2) st)
+    (compareItems (compareSchema cx n) n loc t1 t2 st).bind fun st =>
+    compareProperties cx (compareSchema cx n) n loc t1 t2 st
 
-/-- Go `a != b` on two `interface{}` values decoded from JSON; `none` = nil interface. -/
-def ifaceNe (deepEq : Bool) (a b : Option JVal) : Outcome Bool :=
+/-- `!reflect.DeepEqual(a, b)` on two `interface{}` values decoded from JSON; `none` = nil interface.
+    (Before the repair this was Go's `!=`, which panics on two slices or two maps.) -/
+def ifaceNe (a b : Option JVal) : Outcome Bool :=
   match a, b with
   | none, none => .ok false
   | some _, none => .ok true
   | none, some _ => .ok true
-  | some x, some y =>
-    if !deepEq && x.kind = y.kind && (x.kind = 4 || x.kind = 5) then .panic "comparing uncomparable type"
-    else .ok (x.canon ≠ y.canon || x.kind ≠ y.kind)
+  | some x, some y => .ok (x.canon ≠ y.canon || x.kind ≠ y.kind)
 
 /-- SpecAnalyser.compareSimpleSchema on chains. -/
-def compareSimpleSchema (deepEq : Bool) (loc : Loc) : List Simple → List Simple → St → Outcome St
+def compareSimpleSchema (loc : Loc) : List Simple → List Simple → St → Outcome St
   | [], _, _ => .panic "nil schema1 (SimpleSchema)"
   | _, [], _ => .panic "nil schema2 (SimpleSchema)"
   | s1 :: r1, s2 :: r2, st =>
@@ -424,16 +441,16 @@ def compareSimpleSchema (deepEq : Bool) (loc : Loc) : List Simple → List Simpl
       else .ok st
     a.bind fun st =>
     (if s1.cf ≠ s2.cf then ts Code.ChangedCollectionFormat st else .ok st).bind fun st =>
-    (ifaceNe deepEq s1.dflt s2.dflt).bind fun ne =>
+    (ifaceNe s1.dflt s2.dflt).bind fun ne =>
     (if ne then
        ts (if s1.dflt.isNone then Code.AddedDefault else if s2.dflt.isNone then Code.DeletedDefault else Code.ChangedDefault) st
      else .ok st).bind fun st =>
-    (ifaceNe deepEq s1.exmpl s2.exmpl).bind fun ne =>
+    (ifaceNe s1.exmpl s2.exmpl).bind fun ne =>
     (if ne then
        ts (if s1.exmpl.isNone then Code.AddedExample else if s2.exmpl.isNone then Code.DeletedExample else Code.ChangedExample) st
      else .ok st).bind fun st =>
     if s1.type = "array" then
-      if s2.type = "array" then compareSimpleSchema deepEq loc r1 r2 st
+      if s2.type = "array" then compareSimpleSchema loc r1 r2 st
       else ts Code.ChangedType st
     else .ok st
 
@@ -456,12 +473,12 @@ def compareParams (cx : Ctx) (n : Nat) (url method location name : String) (p1 p
       (compareSchema cx n cl (some sc1) (some sc2) st).bind fun st => .ok (cl, st)
     | _, _ => .ok (childLocation, st)
   r.bind fun (childLocation, st) =>
-  (compareProps cx.mlf n (forChain p1.chain) (forChain p2.chain)).bind fun diffs =>
+  (compareProps n (forChain p1.chain) (forChain p2.chain)).bind fun diffs =>
   (nodeOfSimple name p2.chain).bind fun nd =>
   let childLocation := childLocation.addNode nd
   let st := st.addDiffs childLocation diffs
   let st := st.addDiffs childLocation (checkToFromRequired p1.required p2.required)
-  compareSimpleSchema cx.deepEq childLocation p1.chain p2.chain st
+  compareSimpleSchema childLocation p1.chain p2.chain st
 
 structure UM where
   url : String
@@ -473,8 +490,13 @@ structure UM where
 def getURLMethodsFor (s : Spec) : List UM :=
   s.paths.flatMap (fun p => p.ops.map (fun o => { url := p.url, method := o.method, item := p, op := o }))
 
-def findUM (l : List UM) (url method : String) : Option UM :=
-  l.find? (fun u => u.url = url && u.method = method)
+/-- first element with the given key (a Go map read on a list with distinct keys) -/
+def findBy {α β} [DecidableEq β] (key : α → β) (k : β) (l : List α) : Option α :=
+  l.find? (fun y => decide (key y = k))
+
+def UM.key (u : UM) : String × String := (u.url, u.method)
+
+def findUM (l : List UM) (url method : String) : Option UM := findBy UM.key (url, method) l
 
 def analyseMetaDataProperty (st : St) (a b : String) (c : Code) : St :=
   if a ≠ b then st.addDiff { node := [nameNode "Spec Metadata"] } c (a ++ " -> " ++ b) else st
@@ -545,14 +567,14 @@ def analyseEndpointData (rev : Nat) (u1 u2 : List UM) (st : St) : St :=
       let st := ad.2.foldl (fun st t => st.addDiff location Code.DeletedTag ("\"" ++ t ++ "\"")) st
       st.compareDescripton location um1.op.desc um2.op.desc) st
 
-def findResp (l : List Response) (c : Nat) : Option Response := l.find? (·.code = c)
-def findHeader (l : List Header) (nm : String) : Option Header := l.find? (·.name = nm)
+def findResp (l : List Response) (c : Nat) : Option Response := findBy (·.code) c l
+def findHeader (l : List Header) (nm : String) : Option Header := findBy (·.name) nm l
 
-/-- getSchemaDiffNode("Body", schema) where `schema : *spec.Schema` may be nil: the interface holding a nil
-    pointer is not nil, so the `*spec.Schema` case dereferences it. -/
+/-- getSchemaDiffNode("Body", schema) where `schema : *spec.Schema` may be nil (a nil pointer inside a non-nil
+    interface): the node then carries no type. -/
 def bodyNode (n : Nat) (os : Option Schema) : Outcome NodeSeg :=
   match os with
-  | none => .panic "nil *spec.Schema in getSchemaDiffNode"
+  | none => .ok (nameNode "Body")
   | some s => nodeOfProps n "Body" s
 
 def analyseResponseParams (cx : Ctx) (n : Nat) (u1 u2 : List UM) (st : St) : Outcome St :=
@@ -581,7 +603,7 @@ def analyseResponseParams (cx : Ctx) (n : Nat) (u1 u2 : List UM) (st : St) : Out
             (Outcome.foldlM (fun st (h2 : Header) =>
                 match findHeader resp1.headers h2.name with
                 | some h1 =>
-                  (compareProps cx.mlf n (forChain h1.chain) (forChain h2.chain)).bind fun ds => .ok (st.addDiffs location ds)
+                  (compareProps n (forChain h1.chain) (forChain h2.chain)).bind fun ds => .ok (st.addDiffs location ds)
                 | none =>
                   (nodeOfSimple h2.name h2.chain).bind fun nd =>
                     .ok (st.addDiff (location.addNode nd) Code.AddedResponseHeader))
@@ -623,14 +645,27 @@ def analyseDefinitions (cx : Ctx) (n : Nat) (st : St) : Outcome St :=
       if hasKey cx.defs1 kv.1 then st
       else st.addDiffs (location.addNode (nameNode kv.1)) [{ change := Code.AddedDefinition }]) st)
 
+/-- keys pairwise distinct (Bool): what every Go map guarantees -/
+def distinctBy {α β} [DecidableEq β] (key : α → β) : List α → Bool
+  | [] => true
+  | x :: xs => xs.all (fun y => decide (key y ≠ key x)) && distinctBy key xs
+
+/-- Well-formedness of a document in the model's encoding: lists that stand for Go maps have distinct keys
+    (endpoints by (url, method), definitions by name, responses by code, headers by name).  The driver checks it
+    on every input line. -/
+def Spec.wf (s : Spec) : Bool :=
+  distinctBy UM.key (getURLMethodsFor s) &&
+  distinctBy (fun (kv : String × Schema) => kv.1) s.defs &&
+  (getURLMethodsFor s).all (fun u =>
+    distinctBy (fun (r : Response) => r.code) u.op.responses &&
+    u.op.responses.all (fun r => distinctBy (fun (h : Header) => h.name) r.headers))
+
 structure Flags where
   rev : Nat := 0
-  mlf : Bool := false
-  deepEq : Bool := false
 
 /-- SpecAnalyser.Analyse (extensions not modelled). -/
 def analyse (fl : Flags) (n : Nat) (s1 s2 : Spec) : Outcome (List Diff) :=
-  let cx : Ctx := { defs1 := s1.defs, defs2 := s2.defs, rev := fl.rev, mlf := fl.mlf, deepEq := fl.deepEq }
+  let cx : Ctx := { defs1 := s1.defs, defs2 := s2.defs, rev := fl.rev }
   let u1 := getURLMethodsFor s1
   let u2 := getURLMethodsFor s2
   let st : St := {}
